@@ -134,15 +134,17 @@ theorem resume_at_most_once (s0 : St) (hi : W6InitWait s0) (c : Cfg) (h : W6Reac
   w6_resume_at_most_once (h.cinv hi) w hr hl
 
 /-- **no_resume_after_timeout** (`never both`, one direction): once `w`'s `_on_tick` closure has found the
-    countdown at 0 (the step that registers the `TimeoutError` task), `w` is in phase 4 and no later
-    configuration performs a resumption step of `w`. -/
+    countdown at 0 while the outcome was still open (neither `flag` nor `timedOut` set - otherwise the invocation is
+    stale and does nothing, see `no_timeout_after_resume`): the step that registers the `TimeoutError` task), `w` is in
+    phase 4 and no later configuration performs a resumption step of `w`. -/
 theorem no_resume_after_timeout (s0 : St) (hi : W6InitWait s0) (c : Cfg) (h : W6ReachW s0.hs.length s0 c)
     (w r hh e : Nat) (k : List Frame) (hs : c.stack = .invoke r hh e :: k) (hx : c.exn = none)
     (hk : (c.st.handler hh).kind = .waitTick w) (h0 : (c.st.wait w).timeout = 0)
+    (hfl : (c.st.wait w).flag = false) (hto : (c.st.wait w).timedOut = false)
     (c' : Cfg) (hl : W6Later s0.hs.length (step c) c') : ¬ W6ResumesW c' w := by
   intro hr'
   have hc := h.cinv hi
-  have h1 := w6_timeout_finishes hc w r hh e k hs hx hk h0
+  have h1 := w6_timeout_finishes hc w r hh e k hs hx hk h0 hfl hto
   have h2 := (w6_resume_phase (W6Later.cinv (w6_step_cinv c hc) hl) w hr').1
   have := W6Later.w6_phase_mono (w6_step_cinv c hc) hl w
   omega
@@ -207,49 +209,62 @@ example : ExtOp.w6ok exampleInit.hs.length (.doAct 0 (.rmH 0 none)) := by
 
 /-! ## Part 3 (second round): never both, the other direction; the time-out is not early, counted -/
 
-/-- **no_timeout_after_resume** (`never both`, the other direction), PARTIAL.
-    After the resumption step of `w` no later configuration of the session invokes `w`'s `_on_tick` closure, none
-    contains a `TimeoutError` carrier (`GenRec.exc w`) and none performs the task step of such a carrier (the only
-    step that logs `.timeout`, see `timeout_needs_exc`) - under two hypotheses:
-      (a) `W6BNoStaleTick c w`: at the resumption step no `_dispatcher` in flight still holds `w`'s `_on_tick`
-          handler in the list it iterates over;
-      (b) `W6BLater` = `W6Later` + `W6BLive` at every step taken: a `_dispatcher` step hands only declared handler
-          ids to its loop and a temporary tick handler only while it is installed (cache liveness, the C01 property).
-    FULL STATEMENT: the same without (a) and with `W6Later` in place of `W6BLater`.
-    OBSTACLE for (a): it is FALSE of the model and of the real code (`no_timeout_after_resume_witness`): a handler of
-    `generate_events` that runs the task loop (`self.tick()`; `stop()` while running but not executing runs three inline
-    ticks) lets `_on_done` + the resumption happen while the enclosing `_dispatcher` still iterates over the handler
-    list computed before `_on_done` removed the tick handler; the stale `_on_tick` finds the countdown at 0 and
-    registers the TimeoutError task although the caller already has the result.  NEEDED CHANGE (code + model):
-    `_on_tick` must do nothing once `state.flag` is set (or check that `_on_done_handler` is still installed before
-    registering the task).
-    OBSTACLE for (b): `W6InitWait` does not constrain the handler cache / `_globals`; C01 (`dispatch_exact_set`) proves
-    (b) for dispatchers running on a root from `InitForest ∧ InitHandlers ∧ InitCache`; joining the two needs "a
-    `.dispatcher r` frame always runs on a root" and "no temporary handler in `_globals`", which are not proved yet. -/
-theorem no_timeout_after_resume_partial (s0 : St) (hi : W6InitWait s0) (c : Cfg) (h : W6ReachW s0.hs.length s0 c)
-    (w : Nat) (hr : W6ResumesW c w) (hstale : W6BNoStaleTick c w) (c' : Cfg)
-    (hl : W6BLater s0.hs.length (step c) c') :
-    (∀ r hh e k, c'.stack = .invoke r hh e :: k → (c'.st.handler hh).kind ≠ .waitTick w) ∧
-    (∀ g b, c'.st.gen g ≠ .exc w b) ∧
-    (∀ r t k b, c'.stack = .ptBody r t :: k → c'.st.gen t.g ≠ .exc w b) :=
-  w6b_no_timeout_after_resume (h.cinv hi) (h.excFin hi) w hr hstale hl
+/-- **no_timeout_after_resume** (`never both`, the other direction), FULL since the fix "stale waitEvent closures
+    do nothing once the outcome is decided".  After the resumption step of `w`, in every later configuration of the
+    session: `w.flag` is (still) set; no `TimeoutError` carrier (`GenRec.exc w`) exists; the configuration is not the
+    task step of such a carrier (the only step that logs `.timeout`, see `timeout_needs_exc`); and an invocation of
+    `w`'s `_on_tick` closure - possible only from a handler list computed before `_on_done` removed the handler - changes
+    nothing but the log entry of the invocation itself.
 
-/-- the excluded case is real: a session from `w6b_s0` (one hand-driven manager; `foo` = `x = yield call(bar(),
-    timeout=0); yield; yield; yield`, `bar` = `return 7`, a `generate_events` handler that calls `stop()`) in which wait
-    state 0 is resumed with the result 7 while a `_dispatcher` still holds its `_on_tick` handler, a later configuration
-    invokes that `_on_tick` with the countdown at 0, and a still later one throws `TimeoutError` into the same caller -/
-theorem no_timeout_after_resume_witness :
-    W6InitWait w6b_s0 ∧ ∃ c c' c'', W6ReachW w6b_s0.hs.length w6b_s0 c ∧ W6ResumesW c 0 ∧ ¬ W6BNoStaleTick c 0 ∧
-      Entry.resumed 0 0 1 (.single (.val 7)) false ∈ (step c).st.log ∧
-      W6Later w6b_s0.hs.length (step c) c' ∧
-      (∃ r hh e k, c'.stack = .invoke r hh e :: k ∧ c'.exn = none ∧ (c'.st.handler hh).kind = .waitTick 0 ∧
-        (c'.st.wait 0).timeout = 0) ∧
-      W6Later w6b_s0.hs.length (step c) c'' ∧
-      (∃ r t k, c''.stack = .ptBody r t :: k ∧ c''.exn = none ∧ c''.st.gen t.g = .exc 0 false) ∧
-      Entry.timeout 0 0 false ∈ (step c'').st.log ∧ Entry.timeout 0 0 false ∉ c''.st.log :=
-  ⟨w6b_s0_init, w6b_cR, w6b_cT, w6b_cX, w6b_cR_reach, w6b_isResume_spec _ _ w6b_cR_resume,
-   w6b_hasStale_spec _ _ w6b_cR_stale, w6b_cR_logs, w6b_cT_later, w6b_isTick0_spec _ _ w6b_cT_tick0,
-   w6b_cX_later, w6b_isExcStep_spec _ _ w6b_cX_exc, w6b_cX_logs.1, w6b_cX_logs.2⟩
+    HISTORY.  Before that fix the statement was false of the model and of the code, and the second round proved it only
+    under the hypotheses "no `_dispatcher` in flight holds `w`'s tick handler at the resumption step" and cache
+    liveness; the theorem `no_timeout_after_resume_witness` (a session of `w6b_s0` in which wait state 0 is resumed with
+    the result 7, a later configuration invokes its `_on_tick` with the countdown at 0, and a still later one logs
+    `.timeout 0 0 false` for the same caller) held up to the fix commit; it is false now and was replaced by
+    `stale_tick_regression` below, the same run ending with exactly one outcome. -/
+theorem no_timeout_after_resume (s0 : St) (hi : W6InitWait s0) (c : Cfg) (h : W6ReachW s0.hs.length s0 c)
+    (w : Nat) (hr : W6ResumesW c w) (c' : Cfg) (hl : W6Later s0.hs.length (step c) c') :
+    (c'.st.wait w).flag = true ∧
+    (∀ g b, c'.st.gen g ≠ .exc w b) ∧
+    (∀ r t k b, c'.stack = .ptBody r t :: k → c'.st.gen t.g ≠ .exc w b) ∧
+    (∀ r hh e k, c'.stack = .invoke r hh e :: k → c'.exn = none → (c'.st.handler hh).kind = .waitTick w →
+      (step c').st = c'.w6_invokeSt hh e) :=
+  w6b_no_timeout_after_resume (h.cinv hi) (h.excFin hi) w hr hl
+
+/-- **stale closures are harmless**: an invocation of `w`'s `_on_tick` closure after `flag` or `timedOut` was set
+    changes nothing but the log entry of the invocation (all configurations). -/
+theorem stale_tick_is_noop (c : Cfg) (w r hh e : Nat) (k : List Frame) (hs : c.stack = .invoke r hh e :: k)
+    (hx : c.exn = none) (hk : (c.st.handler hh).kind = .waitTick w)
+    (hst : (c.st.wait w).flag = true ∨ (c.st.wait w).timedOut = true) : (step c).st = c.w6_invokeSt hh e :=
+  w6b_stale_tick_noop c w r hh e k hs hx hk hst
+
+/-- **a carrier is created only while the outcome is open**: an `.exc w b` record after a step was there before, or is
+    the record of the carrier's own task step, or was created by `w`'s own `_on_tick` closure at countdown 0 with
+    neither `flag` nor `timedOut` set. -/
+theorem exc_created_only_when_open (c : Cfg) (g w : Nat) (b : Bool) (hg : (step c).st.gen g = .exc w b) :
+    c.st.gen g = .exc w b ∨
+    (∃ r h e k, c.stack = .invoke r h e :: k ∧ c.exn = none ∧ (c.st.handler h).kind = .waitTick w ∧
+      (c.st.wait w).timeout = 0 ∧ (c.st.wait w).flag = false ∧ (c.st.wait w).timedOut = false) ∨
+    (∃ r t k b0, c.stack = .ptBody r t :: k ∧ c.exn = none ∧ c.st.gen t.g = .exc w b0) :=
+  w6b_exc_step c g w b hg
+
+/-- **regression for the repaired defect** (kernel-evaluated run of the model from `w6b_s0`: one hand-driven manager;
+    `foo` = `x = yield call(bar(), timeout=0); yield; yield; yield`, `bar` = `return 7`, a `generate_events` handler that
+    calls `stop()`, whose inline ticks resume the caller while the enclosing `_dispatcher` still holds the tick handler).
+    The session reaches the resumption step of wait state 0 with the tick handler still pending in a handler loop, the
+    result 7 is handed to the caller, the stale `_on_tick` IS invoked later with the countdown at 0 - with `flag` set -
+    and after the following `tick()` the whole log contains exactly one outcome entry (the `.resumed` one, no
+    `.timeout`) and no `TimeoutError` carrier exists. -/
+theorem stale_tick_regression :
+    W6InitWait w6b_s0 ∧ W6ReachW w6b_s0.hs.length w6b_s0 w6b_cR ∧ W6ResumesW w6b_cR 0 ∧
+      w6b_hasStale w6b_cR 0 = true ∧
+      Entry.resumed 0 0 1 (.single (.val 7)) false ∈ (step w6b_cR).st.log ∧
+      W6Later w6b_s0.hs.length (step w6b_cR) w6b_cT ∧
+      (∃ r hh e k, w6b_cT.stack = .invoke r hh e :: k ∧ w6b_cT.exn = none ∧ (w6b_cT.st.handler hh).kind = .waitTick 0 ∧
+        (w6b_cT.st.wait 0).timeout = 0) ∧ (w6b_cT.st.wait 0).flag = true ∧
+      W6Later w6b_s0.hs.length (step w6b_cR) w6b_cX ∧ done w6b_cX = true ∧ w6b_oneOutcome w6b_cX = true :=
+  ⟨w6b_s0_init, w6b_cR_reach, w6b_isResume_spec _ _ w6b_cR_resume, w6b_cR_stale, w6b_cR_logs, w6b_cT_later,
+   w6b_isTick0_spec _ _ w6b_cT_tick0, w6b_cT_flag, w6b_cX_later, w6b_cX_done, w6b_cX_one⟩
 
 /-- **exc_only_when_finished**: a `TimeoutError` carrier of `w` exists only when `w` is finished (phase 4) - in
     particular never at or before the resumption step of `w` (which happens in phase 3). -/
@@ -287,23 +302,7 @@ theorem tick_potential_monotone (s0 : St) (hi : W6InitWait s0) (c : Cfg) (h : W6
     w6b_tickCount c.st w ≤ w6b_tickCount c'.st w ∧ w6b_phi c.st w ≤ w6b_phi c'.st w :=
   ⟨(W6Later.w6b_mono (h.cinv hi) hl w hw).1, (W6Later.w6b_mono (h.cinv hi) hl w hw).2.2⟩
 
-/-- hypothesis (a) holds whenever the resumption happens outside every handler loop (the ordinary case: the task loop
-    of a `tick()` that was not called from inside a handler) -/
-theorem no_stale_tick_outside_handlers (c : Cfg) (w : Nat) (h : w6b_pending c.stack = []) : W6BNoStaleTick c w := by
-  intro x hx; rw [h] at hx; cases hx
-
 /-! ### non-vacuity of the second-round hypotheses -/
-
-/-- (a) holds whenever no handler loop is in flight, e.g. at the start of every external operation -/
-example : W6BNoStaleTick (startOf (envChange exampleInit 0 []) (.tick 0)) 0 := by
-  intro h hh; simp [startOf, startTick, Cfg.start, Frame.w6b_pend] at hh
-
-/-- (b) constrains `_dispatcher` steps only -/
-example : W6BLive (startOf (envChange exampleInit 0 []) (.tick 0)) := by
-  intro r e rem k hs hst; simp [startOf, startTick, Cfg.start] at hst
-
-example : W6BLater exampleInit.hs.length (startOf (envChange exampleInit 0 []) (.tick 0))
-    (startOf (envChange exampleInit 0 []) (.tick 0)) := W6BLater.refl _
 
 example : W6BInitLog exampleInit := rfl
 example : W6BInitLog w6b_s0 := rfl
@@ -320,13 +319,15 @@ example : W6BBirth { st := { gens := [.user 0 0 0 [.call 0 none (some 2) false] 
     parent is a live user generator `p` then after the step `p` is RUNNING (`.stepGen p` on top of `.ptParent r t p
     false`), its step counter advanced, the resumption task is erased from the task set of `r`'s root, and the log gains
     exactly `.resumed pe ph src value errors`.
-    FULL STATEMENT: without the hypotheses `t.parent = some p` and `c.st.gen p = .user …`.  OBSTACLE: the second is
-    FALSE of the model (and of the code) because of the finding of `no_timeout_after_resume_witness`: the stale
-    `_on_tick` of an earlier, already resumed wait state `w'` of the same caller registers a TimeoutError task whose
-    (uncaught) task step kills `p` (`setGen p .dead`) while `p` is suspended in `w`; `Cfg.ptBodyWait` then drops the
-    resumption task (`| _ => c.pop`), i.e. `waitEvent`'s `yield CallValue` is sent into a finished generator.  The
-    first (`t.parent ≠ none` for the task held in a `ptBody` frame) is true but only proved for tasks in task sets
-    (`wait_task_has_parent`). -/
+    FULL STATEMENT: without the hypotheses `t.parent = some p` and `c.st.gen p = .user …`.  OBSTACLE: before the fix
+    "stale waitEvent closures do nothing once the outcome is decided" the second was FALSE of the model and of the code
+    (the stale `_on_tick` of an earlier, already resumed wait state `w'` of the same caller registered a TimeoutError
+    task whose uncaught task step killed `p` while `p` was suspended in `w`; `Cfg.ptBodyWait` then dropped the
+    resumption task).  That counter-example is gone (`no_timeout_after_resume`), but proving "the `parentGen` of a wait
+    state in phase 1-3 is a suspended live user generator that no other task or frame refers to" needs an ownership
+    invariant over tasks, generators, frames and wait states that `W6CInv` does not contain.  The first hypothesis
+    (`t.parent ≠ none` for the task held in a `ptBody` frame) is true but only proved for tasks in task sets
+    (`transient_tasks_by_phase`). -/
 theorem caller_completes_partial (s0 : St) (hi : W6InitWait s0) (c : Cfg) (h : W6ReachW s0.hs.length s0 c)
     (w r : Nat) (t : Task) (k : List Frame) (hs : c.stack = .ptBody r t :: k) (hx : c.exn = none)
     (hg : c.st.gen t.g = .wait w)
